@@ -1,2 +1,6 @@
-import AgdbSearch.Model.Basic
-import AgdbSearch.Model.Value
+import AgdbSearch.Model.Query
+import AgdbSearch.Props.C14
+import AgdbSearch.Props.C15
+import AgdbSearch.Props.C16
+import AgdbSearch.Props.C17
+import AgdbSearch.Props.C18
